@@ -1480,6 +1480,7 @@ func Run(cfg core.Config, scope core.Scope) *core.Result {
 		"STRIDE.contig: the Data of a strided vector is copied or ranged over as a contiguous slice only under a test of its Inc",
 		"STRIDE.walk: a matrix operand passed as a vector is walked with a constant increment or one derived from its own leading dimension",
 		"STRIDE.pair: at every call or struct literal a (slice, stride) pair refers to one operand",
+		"STRIDE.unitidx: an element of a vector parameter with an increment parameter inc* is addressed by an index that does not involve that increment (a bare loop counter) only where the control-flow graph restricted to inc != 1 cannot reach",
 		"STRIDE.veclda: a contiguous vector parameter (no ld/inc of its own) handed to a callee's matrix parameter as a single column (cols == 1) is not given a bare problem dimension as its leading dimension")
 	res.Configs = append(res.Configs, cfg.String())
 	pkgs, err := core.Load(cfg, patterns...)
@@ -1609,6 +1610,7 @@ func analyseFunc(res *core.Result, pkg *packages.Package, fd *ast.FuncDecl) {
 	before := len(res.Findings)
 	ob := res.Obligations
 	fa.check(fd.Body)
+	fa.checkUnitIndex(fd)
 	fa.checkWorkBlocks()
 	fa.checkWorkNext(fd.Body)
 	if res.Obligations > ob {
@@ -1670,4 +1672,105 @@ func (fa *funcAnalysis) checkVectorAsMatrix(owner string, base ast.Expr, strideP
 		Msg: fmt.Sprintf("%s is a contiguous vector (it has no leading dimension of its own) but is passed as a one-column matrix with leading dimension %s, a problem dimension: in row-major storage the callee then addresses every %s-th element (a column vector has leading dimension 1)",
 			id.Name, aid.Name, aid.Name),
 	})
+}
+
+// checkUnitIndex implements STRIDE.unitidx. The unit-stride fast paths of the
+// BLAS routines address x[i] with the bare loop counter; that is the same
+// element as x[kx+i*incX] only when incX == 1. For every vector parameter
+// paired with an inc* parameter, an index expression that carries no unit of
+// that increment (and is not a constant) must be unreachable in the
+// control-flow graph pruned to the edges consistent with inc != 1
+// (`incX == 1` false, `incX != 1` true, under &&, || and !). A fast path
+// guarded by the other vector's increment only (`if incX == 1 { … y[i] … }`)
+// reads and writes the wrong elements of y for incY != 1.
+func (fa *funcAnalysis) checkUnitIndex(fd *ast.FuncDecl) {
+	// vector parameters: slice params whose stride param is named inc*
+	incOf := map[string]types.Object{} // owner key -> inc param
+	for o, k := range fa.strideOwner {
+		if strings.HasPrefix(strings.ToLower(o.Name()), "inc") {
+			incOf[k] = o
+		}
+	}
+	if len(incOf) == 0 {
+		return
+	}
+	type siteT struct {
+		ix    *ast.IndexExpr
+		owner string
+	}
+	var sites []siteT
+	ast.Inspect(fd.Body, func(n ast.Node) bool {
+		switch x := n.(type) {
+		case *ast.FuncLit:
+			return false
+		case *ast.IndexExpr:
+			k, ok := fa.baseOwner(x.X)
+			if !ok || incOf[k] == nil {
+				return true
+			}
+			// numeric vectors only: Dlaswp's (ipiv []int, incX) uses the
+			// "increment" as a direction flag and indexes ipiv by row
+			if tv, ok := fa.info.Types[x]; !ok || !isFloatOrComplex(tv.Type) {
+				return true
+			}
+			if tv, ok := fa.info.Types[x.Index]; ok && tv.Value != nil {
+				return true
+			}
+			units := map[string]bool{}
+			fa.exprUnits(x.Index, units)
+			if units[k] {
+				return true
+			}
+			sites = append(sites, siteT{x, k})
+		}
+		return true
+	})
+	if len(sites) == 0 {
+		return
+	}
+	g := cfgx.New(fd.Body, fa.info)
+	reachFor := map[string][]bool{}
+	for _, s := range sites {
+		fa.res.Obligations++
+		fa.res.Count("unit_indexed_vector_elements", 1)
+		reach, ok := reachFor[s.owner]
+		if !ok {
+			inc := incOf[s.owner]
+			g.Keep = cfgx.KeepUnder(func(c ast.Expr) (bool, bool) {
+				be, ok := c.(*ast.BinaryExpr)
+				if !ok || (be.Op != token.EQL && be.Op != token.NEQ) {
+					return false, false
+				}
+				id, ok := ast.Unparen(be.X).(*ast.Ident)
+				if !ok || core.ObjOf(fa.info, id) != inc {
+					return false, false
+				}
+				tv, ok := fa.info.Types[be.Y]
+				if !ok || tv.Value == nil || tv.Value.ExactString() != "1" {
+					return false, false
+				}
+				// inc != 1 assumed
+				return be.Op == token.NEQ, true
+			})
+			reach = g.Reachable()
+			g.Keep = nil
+			reachFor[s.owner] = reach
+		}
+		loc, ok := g.Where[s.ix]
+		if !ok || !reach[loc.Block] {
+			continue
+		}
+		fa.res.Add(core.Finding{
+			Rule: "STRIDE.unitidx",
+			Key:  fmt.Sprintf("STRIDE.unitidx|%s|%s", fa.name, types.ExprString(s.ix)),
+			Pos:  core.Pos(s.ix.Pos()), Func: fa.name,
+			Msg: fmt.Sprintf("%s addresses the vector %s without its increment %s on a path that is feasible with %s != 1: for a non-unit increment this is not the element the operation defines",
+				types.ExprString(s.ix), fa.ownerLabel(s.owner), incOf[s.owner].Name(), incOf[s.owner].Name()),
+		})
+	}
+}
+
+func isFloatOrComplex(t types.Type) bool {
+	b, ok := t.Underlying().(*types.Basic)
+	return ok && b.Info()&(types.IsFloat|types.IsComplex) != 0
 }
